@@ -123,6 +123,20 @@ pub fn check(c: &Case) -> CheckResult {
     let Some(inv) = xf_inverse64(&c.ctm) else { return Err("HARNESS: singular CTM".into()) };
     let mut dt = DrawTarget::new(c.w, c.h);
     dt.set_transform(&to_transform(&c.ctm));
+    // calls that leave pixels, transform, clip and layers as they were, made between set_transform and the draw
+    // (anything cached per transform must survive them): an empty layer group, or a clear under a clip
+    match (c.w + c.h + (c.alpha.to_bits() >> 9) as i32) % 4 {
+        0 => {
+            dt.push_layer(1.0);
+            dt.pop_layer();
+        }
+        1 => {
+            dt.push_clip_rect(irect(0, 0, c.w, c.h));
+            dt.clear(SolidSource { r: 0, g: 0, b: 0, a: 0 });
+            dt.pop_clip();
+        }
+        _ => {}
+    }
     let mut pb = PathBuilder::new();
     for (i, cn) in [(-2.0, -2.0), (c.w as f64 + 2.0, -2.0), (c.w as f64 + 2.0, c.h as f64 + 2.0), (-2.0, c.h as f64 + 2.0)].iter().enumerate() {
         let p = xf_apply64(&inv, *cn);
@@ -448,7 +462,7 @@ pub fn property(ctx: &Ctx) -> Property {
     let c = ctx.clone();
     Property {
         id: "C12",
-        rule: "cases: linear (extent >= 1 px), radial (r >= 1), two-circle (first circle strictly inside the second) and sweep gradients built with the Source::new_* constructors; 1-5 stops at strictly increasing positions (gaps >= 0.02, ends not necessarily 0/1) with random unpremultiplied colours or probe ramps; Pad/Repeat/Reflect; global alpha; identity or any invertible CTM, optionally with user space zoomed (units 256, 4096 or 65536 times smaller, or 64 times larger, under a correspondingly scaled CTM); 4..24 px surfaces, rendered with a full-surface Src fill (and again, Src and SrcOver, through a pixel-aligned clip path that cuts off the first columns: same colours inside, nothing outside). Oracle: f64 parameter t per pixel centre (through the inverse CTM) by the statement's definitions, colour = piecewise-linear interpolation of the unpremultiplied stops after the spread map, premultiplied and scaled by alpha; every channel must lie within 4/255 of the range that colour takes for t within 3/255 (+|t|/255 for two-circle and sweep) of the pixel's t; Pad pixels beyond an end all show one identical colour; two-circle pixels without admissible circle are transparent. Non-trivial: >=3 distinct colours on the surface and t spanning >= 0.25; distinct by hash of the case.",
+        rule: "cases: linear (extent >= 1 px), radial (r >= 1), two-circle (first circle strictly inside the second) and sweep gradients built with the Source::new_* constructors; 1-5 stops at strictly increasing positions (gaps >= 0.02, ends not necessarily 0/1) with random unpremultiplied colours or probe ramps; Pad/Repeat/Reflect; global alpha; identity or any invertible CTM, optionally with user space zoomed (units 256, 4096 or 65536 times smaller, or 64 times larger, under a correspondingly scaled CTM); 4..24 px surfaces, rendered with a full-surface Src fill (in half of the cases after an empty layer group or a clear under a clip that come between set_transform and the draw; and again, Src and SrcOver, through a pixel-aligned clip path that cuts off the first columns: same colours inside, nothing outside). Oracle: f64 parameter t per pixel centre (through the inverse CTM) by the statement's definitions, colour = piecewise-linear interpolation of the unpremultiplied stops after the spread map, premultiplied and scaled by alpha; every channel must lie within 4/255 of the range that colour takes for t within 3/255 (+|t|/255 for two-circle and sweep) of the pixel's t; Pad pixels beyond an end all show one identical colour; two-circle pixels without admissible circle are transparent. Non-trivial: >=3 distinct colours on the surface and t spanning >= 0.25; distinct by hash of the case.",
         assumptions: vec!["sweep pixels within 1.5 px of the centre or within 0.75 px of the angle-0 ray are not judged (angle discontinuity inside the pixel)"],
         parts: vec![part("render", 60_000, 1_000_000, move || strategy(&c), check)],
         min_class_fraction: vec![("render", "src:linear", 0.15), ("render", "src:radial", 0.15), ("render", "src:twocircle", 0.15), ("render", "src:sweep", 0.15), ("render", "spread:reflect", 0.2), ("render", "t>1-seen", 0.3), ("render", "t<0-seen", 0.1), ("render", "linear:horizontal-right-to-left", 0.005), ("render", "linear:vertical", 0.01), ("render", "twocircle:focal-point", 0.02), ("render", "twocircle:centres-share-one-coordinate", 0.03), ("render", "ctm-scale>=1000", 0.05)],
